@@ -238,6 +238,120 @@ def api(tag: str, kind: int, which: int) -> str:
     return 'ok'
 
 
+def _user_ctor(loader, node):
+    return ('constructed by a user constructor', node.tag)
+
+
+def _user_multi(loader, suffix, node):
+    return ('constructed by a user multi-constructor', suffix)
+
+
+class _UserObj(object):
+    pass
+
+
+def after_registration(op: int, lc: int, kind: int, ctx: int) -> str:
+    """Registrations that do not target the safe classes (module-level helpers with Loader=None,
+    a YAMLObject subclass with the default yaml_loader, a registration on Full/Unsafe or on a
+    subclass of SafeLoader) must leave the six safe/base classes rejecting the tag."""
+    from harness.c10 import SHIPPED, snapshot, restore
+    from symex.hlib import untraced
+    with untraced():
+        snap = snapshot(SHIPPED)
+    try:
+        if op == 0:
+            yaml.add_constructor('!user', _user_ctor)
+            tag = '!user'
+        elif op == 1:
+            yaml.add_multi_constructor('!userm:', _user_multi)
+            tag = '!userm:x'
+        elif op == 2:
+            type('Obj', (yaml.YAMLObject,), {'yaml_tag': '!userobj'})
+            tag = '!userobj'
+        elif op == 3:
+            yaml.FullLoader.add_constructor('!user', _user_ctor)
+            yaml.UnsafeLoader.add_multi_constructor('!userm:', _user_multi)
+            tag = '!user'
+        elif op == 4:
+            sub = type('Sub', (yaml.SafeLoader,), {})
+            sub.add_constructor('!user', _user_ctor)
+            sub.add_multi_constructor('!userm:', _user_multi)
+            tag = '!userm:x'
+        else:
+            sub = type('CSub', (yaml.CSafeLoader,), {})
+            sub.add_multi_constructor('!userm:', _user_multi)
+            sub.add_constructor('!user', _user_ctor)
+            tag = '!user'
+        cls = pick(lc, LOADERS)
+        loader = cls('')
+        x = _mk(tag, kind)
+        root = _place(ctx, x)
+        try:
+            obj = loader.construct_document(root)
+        except yaml.constructor.ConstructorError:
+            reach()
+            return 'ok'
+        except Exception as e:
+            not_a_finding(e)
+            return fail(P, exc_sig(e), kind='?', nk=kind, ctx=ctx, v='')
+        finally:
+            loader.dispose()
+        if lc == 1 or lc == 3:
+            reach()
+            return 'ok' if in_universe(obj) else 'BASE-TYPE a base loader built a foreign object after a registration elsewhere'
+        if ctx == 3 or ctx == 4:
+            return fail(P, 'LEAK-MERGE-SOURCE', nk=kind, ctx=ctx)
+        return 'LEAK a registration made elsewhere is honoured by %s' % cls.__name__
+    finally:
+        with untraced():
+            restore(snap)
+
+
+HISTORY_TAGS = [T + 'python/name:m1.f', T + 'python/name:builtins.len', T + 'python/tuple', T + 'python/object/apply:m1.f', T + 'python/module:m1',
+                T + 'python/object:m1.f', '!userm:x', T + 'python/complex']
+
+
+def history(tag_i: int, first: int, lc: int, kind: int) -> str:
+    """A trusted load of a tag, then a safe load of the very same tag in the same process."""
+    from harness.c04 import Contained
+    tag = pick(tag_i, HISTORY_TAGS)
+    trusted = pick(first, [yaml.FullLoader, yaml.UnsafeLoader, yaml.Loader])
+    with Contained():
+        had = '!userm:' in trusted.yaml_multi_constructors
+        if not had:
+            trusted.add_multi_constructor('!userm:', _user_multi)
+        try:
+            t = trusted('')
+            try:
+                t.construct_document(_mk(tag, kind))
+            except Exception:
+                pass
+            finally:
+                t.dispose()
+            cls = pick(lc, LOADERS)
+            loader = cls('')
+            try:
+                obj = loader.construct_document(_mk(tag, kind))
+            except yaml.constructor.ConstructorError:
+                reach()
+                return 'ok'
+            except Exception as e:
+                return fail(P, exc_sig(e), kind='?', nk=kind, v='')
+            finally:
+                loader.dispose()
+            if lc == 1 or lc == 3:
+                reach()
+                return 'ok' if type(obj) in (str, list, dict) else 'BASE-TYPE after a trusted load of the same tag'
+            return 'LEAK a tag seen by a trusted loader is constructed by %s afterwards' % cls.__name__
+        finally:
+            if not had:
+                del trusted.yaml_multi_constructors['!userm:']
+            for c in (yaml.constructor.BaseConstructor,):
+                for name, v in list(vars(c).items()):
+                    if isinstance(v, dict) and name not in ('yaml_constructors', 'yaml_multi_constructors'):
+                        v.clear()       # undo any process-wide cache a change may have introduced
+
+
 def tables() -> str:
     """Concrete (no symbolic input): the effective tables of the six classes are the closed
     set, compared by identity with SafeConstructor's / BaseConstructor's own functions."""
@@ -274,6 +388,10 @@ def jobs(tier):
             budget=120, bounds='len(tag)<=%d, 3 kinds, safe_load/safe_load_all/load(SafeLoader)' % L),
         Job('tables', tables, [], budget=30, bounds='concrete table identity check'),
     ]
+    js.append(Job('after-registration', after_registration, [lambda op, lc, kind, ctx: 0 <= op <= 5 and 0 <= lc <= 3 and 0 <= kind <= 2 and (ctx == 0 or ctx == 1 or ctx == 8)],
+                  budget=200, bounds='6 registration forms that do not target the safe classes x 4 safe/base classes x 3 node kinds x 3 placements'))
+    js.append(Job('history', history, [lambda tag_i, first, lc, kind: 0 <= tag_i < len(HISTORY_TAGS) and 0 <= first <= 2 and 0 <= lc <= 3 and 0 <= kind <= 2],
+                  budget=200, bounds='trusted load (3 loaders) of one of %d tags, then the 4 safe/base classes on the same tag, 3 node kinds' % len(HISTORY_TAGS)))
     for c in range(12):
         js.append(Job('context/%d' % c, context, [lambda tag, kind, ctx, _c=c: ctx == _c and len(tag) <= L and 0 <= kind <= 2],
                       budget=100, bounds='placement %d, len(tag)<=%d, 3 kinds' % (c, L)))
